@@ -381,7 +381,10 @@ def run(ctx):
         if i % 1500 == 7:
             ctx.sample({"tx": tx, "rx": rx, "batches": bs, "impl": [[en, st] for _, en, st in w.events]})
     ctx.cov["distinct_nontrivial"] = nontriv
-    ctx.cov["rule"] = ("all 256 RSTACK and all 256 ERROR codes x arrival {before the request, in time, after the timeout, twice}; all 64 (tx_seq, rx_seq) states x {software, power-on} RSTACK and a start-up waiter; "
+    # the definition generated from the coroutine Gateway.reset against the real coroutine, script by script
+    from harness import resetsrc
+    resetsrc.run_cases(ctx)
+    ctx.cov["rule"] = ("source level: the definition generated from the coroutine Gateway.reset (BV/Gen/SrcUartReset.lean, run by the driver) against the real coroutine on the virtual loop for scripts of what reaches the gateway while it waits {RSTACK with the software-reset / other codes, ERROR, data, connection lost with / without an exception, EOF}, grouped into 1..4 loop iterations of 1..3 inputs, ended by the deadline or a cancellation, with and without a start-up waiter and a connection-done future pending: outcome, _reset_future and the calls on application and transport are compared; model level: " + "all 256 RSTACK and all 256 ERROR codes x arrival {before the request, in time, after the timeout, twice}; all 64 (tx_seq, rx_seq) states x {software, power-on} RSTACK and a start-up waiter; "
                        "connection loss with/without exception and EOF before and after every step of eight arrival patterns, alone and batched in one loop iteration with the neighbouring event in both orders; "
                        "a reset request left unanswered while DATA / ACK / NAK / failure frames arrive at various times before the deadline (oracle only: the timeout is raised exactly RESET_TIMEOUT after the request); random batched sequences; non-trivial = contains a loss, a timeout or a batched iteration")
     ctx.exhaustive = True
